@@ -143,10 +143,37 @@ inductive Verdict where
   | spuriousConnError -- connection error without any disconnect
   | late              -- waited longer than the time-out
   | raised            -- ended with an unexpected exception
+  | needlessTimeout   -- timed out although the reply to its own request was readable well before the time-out ran out
   deriving DecidableEq, Repr
 
+/-- a line the peer made readable on the live connection, and from when on (ms after the start of the scenario) the
+client could have read it -/
+structure Arrival (α : Type) where
+  line : Line α
+  readyMs : Nat
+  deriving Repr
+
+/-- "for any order and timing in which replies arrive every caller receives the reply that answers its own request":
+the caller of entry `e`, who began its request at `tPut` and gave up when its reply time-out `replyMs` had run out, was
+let down when a line that the peer sent in response to this very request, that answers it and that reaches the matching
+code (`event = false`) was readable at least `marginMs` before the time-out ran out - whatever the rx thread was doing
+instead of reading it. -/
+def NeedlessTimeout (tbl : List (α × α)) (e : Entry α) (tPut replyMs marginMs : Nat) (arr : List (Arrival α)) : Prop :=
+  ∃ a ∈ arr, a.line.re = some e.id ∧ AnswersOwn tbl e a.line ∧ a.line.event = false ∧ a.readyMs + marginMs ≤ tPut + replyMs
+
+instance (tbl : List (α × α)) (e : Entry α) (tPut replyMs marginMs : Nat) (arr : List (Arrival α)) :
+    Decidable (NeedlessTimeout tbl e tPut replyMs marginMs arr) := by
+  unfold NeedlessTimeout; exact inferInstance
+
+def needlessTimeoutB (tbl : List (α × α)) (e : Entry α) (tPut replyMs marginMs : Nat) (arr : List (Arrival α)) : Bool :=
+  decide (NeedlessTimeout tbl e tPut replyMs marginMs arr)
+
+theorem needlessTimeoutB_iff (tbl : List (α × α)) (e : Entry α) (tPut replyMs marginMs : Nat) (arr : List (Arrival α)) :
+    needlessTimeoutB tbl e tPut replyMs marginMs arr = true ↔ NeedlessTimeout tbl e tPut replyMs marginMs arr := by
+  simp [needlessTimeoutB]
+
 def judgeCaller (tbl : List (α × α)) (final : St α) (closedAt : List Nat) (everClosing : Bool) (waitMs : Nat)
-    (putClosing : Bool) (c : CallerObs) : Verdict :=
+    (putClosing : Bool) (c : CallerObs) (needless : Bool := false) : Verdict :=
   if c.tEnd > c.tPut + waitMs then .late else
   match c.out with
   | .reply q | .secopError q =>
@@ -154,7 +181,8 @@ def judgeCaller (tbl : List (α × α)) (final : St α) (closedAt : List Nat) (e
     | some p => if p.2.seq = q ∧ AnswersOwn tbl p.1 p.2 then .ok else .wrongReply
     | none => .wrongReply
   | .connError => if everClosing then .ok else .spuriousConnError
-  | .timeout => if putClosing || closedAt.any (fun k => c.putAt < k ∧ k ≤ c.endAt) then .notReleased else .ok
+  | .timeout => if putClosing || closedAt.any (fun k => c.putAt < k ∧ k ≤ c.endAt) then .notReleased
+                else if needless then .needlessTimeout else .ok
   | .other => .raised
   | .laterConn => .ok
 
